@@ -25,8 +25,14 @@ def pre_build():
 
 
 def scenarios(seed, tier):
-    return S.scenarios(seed, tier)
+    yield from S.scenarios(seed, tier)
+    # portfolios through run_from_json (string / file / grid stored in the JSON) and re-created by set_param: comp/entry.py
+    from ..comp import entry as EN
+    yield from EN.stream(seed, 60 if tier == 'quick' else 400, ('json', 'param'), tmax=10 if tier == 'quick' else 16)
 
 
 def run_case(case, drv):
+    if isinstance(case, dict) and case.get('_stream') == 'entry':
+        from ..comp import entry as EN
+        return EN.run_stream_case(case, ('entry_point',))
     return S.run_case(case, drv)
